@@ -517,7 +517,10 @@ func gateBody(g *gateRun) *gateFail {
 			}
 			g.next[t]++
 			res := g.start(ops, arm)
-			if arm != nil && arm.reached {
+			g.mu.Lock()
+			reached := arm != nil && arm.reached
+			g.mu.Unlock()
+			if reached {
 				arm.res = res
 				for _, p := range g.parkedList() {
 					if key(p.node) == key(arm.node) {
